@@ -78,7 +78,7 @@ def hostile_names(rng, syn):
         syn = [("INVALID" if h2 == victim else h2, [(kd, "INVALID") if (kd == 0 and n == victim) else (kd, n) for kd, n in b2], a2, i2)
                for h2, b2, a2, i2 in syn]
         return syn
-    syn[i] = (h, b, 0 if a in (2, 3, 4, 7) else a, aid if a not in (2, 3, 4, 7) else 0)
+    syn[i] = (h, b, 0 if a in (2, 3, 4, 7, 9) else a, aid if a not in (2, 3, 4, 7, 9) else 0)
     return syn
 
 
